@@ -10,6 +10,9 @@ NOTE = ("Trusted base: Coq 8.16.1 kernel (vm_compute in closed-term lemmas, no n
         "canonicalisation); tools/py2v.py for generated units. The theorems are about hand-written Gallina models; the "
         "models are tied to /repo by the correspondence run of this check (and by the translator where stated). ")
 CLAIMED = {
+ 'C01': dict(cat='proof', tech='Coq invariant proof over a Gallina model of HighestAverages.evaluate (all votes, seats, divisors, prev_gains, caps) + translator tie for divisor.py + extraction-based correspondence',
+             text='Loop invariant (sorted duplicate-free exact quotient list, caps, optimality of every awarded seat against every remaining claim, seat accounting, tie exactness) proved by induction over the loop for every input and every positive non-decreasing divisor; the five built-in divisors and modified_first_coef wrappers are proved to satisfy the hypothesis and are regenerated from divisor.py on every run (GenTie lemmas). evaluate() itself is tied by differential runs (exhaustive small domain, random, constructed quotient ties, zero-vote/cap stream, 1e30 magnitudes).',
+             ref='DESIGN.md 3 C01', note='Modelled, not verified: HighestAverages.evaluate (Model/HighestAverages.v). Generated from source: component/divisor.py.'),
  'C09': dict(cat='proof', tech='Coq theorems over a Gallina model of get_n_best (all mappings, all n) + extraction-based correspondence with core.get_n_best / Plurality',
              text='get_n_best_spec / no_inversion / tie_members / stable-sort theorems hold for every list of (candidate, rational) pairs and every n>=1 (Coq, closed under the global context); the model is tied to the code by an exhaustive small-domain plus random differential run on every check.',
              ref='DESIGN.md 3 C09', note='Modelled, not verified: util.sorted_votes, core.get_n_best, Plurality.evaluate (Model/GetNBest.v).'),
